@@ -45,6 +45,29 @@ class LoopMixin:
             label, expr = (inv[0].value, inv[1]) if isinstance(inv, tuple) else (f'inv{j}', inv)
             goal = self.spec_bool(st, self.sev(st, expr, env, c.module))
             self.add_obligation('inv', st, goal, f'loop{n}.{label}.{which}', node, detail=ast.unparse(expr))
+        if which.startswith('preserved') and spec.get('_mods') is not None and spec.get('_head') is not None:
+            self.check_loop_frame(spec['_head'], st, spec['_mods'], n, node)
+
+    def check_loop_frame(self, head, st, mods, n, node):
+        """the body of an arbitrary iteration writes only what loop_modifies declares (objects that existed at the head of
+        the iteration; what the iteration allocates itself is free)"""
+        if mods['all'] or mods.get('user') or mods.get('younger'):
+            return
+        r = smt.fresh('lfr', smt.Int)
+        a = smt.fresh('lfa', smt.Str)
+        g_ = lambda rr: mods['guards'].get(rr.get_id(), TRUE)
+        excl = [AND(g_(rr), r == rr, a == S(attr)) for (rr, attr) in mods['cells']] + [AND(g_(rr), r == rr) for rr in mods['fields']]
+        # objects allocated by earlier iterations (at or above the allocation counter at loop ENTRY) are free: their
+        # contents at the head of an arbitrary iteration are unconstrained anyway
+        entryA = mods.get('_entryA', head.A)
+        goal = z3.Implies(AND(r < entryA, NOT(OR(*excl)) if excl else TRUE),
+                          z3.Select(z3.Select(st.H, r), a) == z3.Select(z3.Select(head.H, r), a))
+        self.add_obligation('frame', st, goal, f'loop{n}.frame_fields', node, detail='the loop body writes only the attribute cells named by loop_modifies')
+        exc2 = [AND(g_(rr), r == rr) for rr in mods['contents']]
+        goal2 = z3.Implies(AND(r < entryA, NOT(OR(*exc2)) if exc2 else TRUE),
+                           AND(z3.Select(st.DH, r) == z3.Select(head.DH, r), z3.Select(st.DV, r) == z3.Select(head.DV, r),
+                               z3.Select(st.DL, r) == z3.Select(head.DL, r), z3.Select(st.LS, r) == z3.Select(head.LS, r)))
+        self.add_obligation('frame', st, goal2, f'loop{n}.frame_containers', node, detail='the loop body writes only the containers named by loop_modifies')
 
     def item_facts(self, st: St, spec, node):
         """loop_item_fact(n, expr): a fact about the current element, proved (obligation) from the invariant and the
@@ -88,6 +111,9 @@ class LoopMixin:
             env = self.loop_env(st, spec, {})
             mods = self.parse_modifies(st, c, env, spec['mod'])
             self.apply_modifies(st, mods)
+            mods['_entryA'] = A0
+            spec['_mods'] = mods
+            spec['_head'] = st.heap_snapshot()
             return
         # heuristic: only direct mutations of local containers
         writes = self.body_writes(body)
